@@ -243,7 +243,7 @@ def r2(ctx):
         elif res.kind == ORD:
             ctx.ob("R2", "the target list starts as the complete declared list", True, func=f, node=f.node, instance=f"schedule:initial:{v}")
         else:
-            ctx.require(v != next(iter(sorted(chain))) or False, f"C13.R2: cannot interpret the definitions of `{v}`: {res.unk[:2]}")
+            ctx.require(False, f"C13.R2: cannot interpret the definitions of `{v}`: {res.unk[:2]}")
 
     # --- one task per surviving target, created in order, with that target
     pcs = [c for c in f.calls() if call_is(p, f, c, f"{SCHED}._process_target")]
@@ -659,12 +659,10 @@ VARIANTS = [
     V("rename accumulator", MFILE, f"{MBF}.get_targets", "filtered_targets", "kept", None, count=4),
     V("temporary for the filter result", SFILE, f"{SCHED}.schedule", "targets = await f.get_targets(job, targets)", "res = await f.get_targets(job, targets)\n        targets = res", None),
     V("reorder independent statements", SFILE, f"{SCHED}.schedule", "job_context = JobContext(job)\n    targets = list(binding_config.targets)", "targets = list(binding_config.targets)\n    job_context = JobContext(job)", None),
-    V("explicit loop instead of comprehension", SFILE, f"{SCHED}.schedule", "wait_tasks = [", "wait_tasks = list(", None) if False else
     V("tasks built from a temporary", SFILE, f"{SCHED}.schedule", _TASKS, "for target in list(targets)]", None),
     V("operands swapped in the deployment test", MFILE, f"{RULE}.eval", "if deployment != self.deployment:", "if self.deployment != deployment:", None),
     V("emptiness as `not x`", MFILE, f"{MBF}.get_targets", "if len(filtered_targets) == 0:", "if not filtered_targets:", None),
     V("logging added to eval", MFILE, f"{RULE}.eval", "    return True", "    logger.debug('matched')\n    return True", None),
     V("match value into a local first", MFILE, f"{RULE}.eval", "        if match != str(job.inputs[input_name].value):",
       "        actual = str(job.inputs[input_name].value)\n        if match != actual:", None),
-    V("rename rule loop variable", MFILE, f"{MBF}.get_targets", "matching_rule", "rule", None, count=2),
 ]
